@@ -16,6 +16,7 @@ ids = sys.argv[2:] or [c["property_id"] for c in json.load(open("/verif/MANIFEST
 wt = tempfile.mkdtemp(prefix="benign-", dir="/tmp")
 os.rmdir(wt)
 scratch = tempfile.mkdtemp(prefix="benign-out-", dir="/tmp")
+shutil.copy("/verif/lean/.lake/build/bin/drv", os.path.join(scratch, "drv"))
 
 
 def sh(cmd, **kw):
@@ -35,7 +36,7 @@ try:
         res["suite"] = r.stdout.strip()
 
         def one(c):
-            e2 = dict(os.environ, VERIF_REPO=wt, VERIF_OUT=scratch)
+            e2 = dict(os.environ, VERIF_REPO=wt, VERIF_OUT=scratch, VERIF_DRV=os.path.join(scratch, "drv"))
             r = sh(f"cd /verif && ./check {c} --no-audit", env=e2)
             lines = [l for l in r.stdout.splitlines() if "VIOLATION" in l]
             detail = ""
